@@ -61,7 +61,7 @@ def run(ctx):
             parts = str(rng).split("/", 1)[1].split("|")
             r.shuffle(parts)
             start_text = f"vers:{s.rcls.scheme}/" + "|".join(parts)
-            if all(text.version_text_ok(str(c.version)) for c in rng.constraints):
+            if all(text.version_ok(c.version) for c in rng.constraints):
                 fs0 = ops and ops[0] == "simplify"
                 try:
                     rng2 = vr.VersionRange.from_string(start_text, simplify=False, validate=False)
